@@ -6,6 +6,7 @@ from hypothesis import strategies as st
 
 from vf import strategies as S
 from vf import tmp
+from vf import xproc
 from vf.cli import run_cli
 from vf.engine import Violation, require
 
@@ -17,6 +18,7 @@ RULE = (
     "n_chunks in 1..plates+3, batch of 0..3 unobserved plate ids in any order with repeats (handed over as list, tuple, set, frozenset, dict keys or numpy integers), per-plate scores from {-inf,0,1,1,2.5} U floats U near-ties (distinct values agreeing to 1e-10 .. one ulp) "
     "(ties forced), chunk files combined in a drawn order, policy None or KPerSample(k); 1 in 4 cases through the calculate_scores / "
     "select_next_plate CLIs. Non-trivial = (n_chunks>=2 and non-empty batch) or ties at the minimum or n_chunks > candidates. distinct = distinct case JSON."
+    ' Also: fixed cases in which every chunk index is computed by its own interpreter process with its own string-hash salt.'
 )
 ASSUMPTIONS = [
     "'distinct condition' is the ordered tuple (sample id, treatment ids) - what filter_dataset_to_unique_treatments documents; which duplicate survives is not asserted",
@@ -71,6 +73,22 @@ def _case(draw):
 
 def strategy(tier):
     return _case()
+
+
+def exhaustive(tier):
+    # the chunks of one scoring task computed the way the pipeline computes them: one interpreter process per chunk index, each
+    # with its own string-hash salt; together they must still score every candidate exactly once
+    def sc_(n_pl, names):
+        rows = []
+        for p_ in range(n_pl):
+            for r_ in range(1 + p_ % 3):
+                rows.append({"s": "s%d" % (p_ % 2), "p": names(p_), "t": ["t%d" % ((p_ + r_) % 5), "t%d" % ((p_ + 2 * r_ + 1) % 5)], "d": [1.0, 2.0], "o": 0.5})
+        return {"arity": 2, "control": "ctl", "rows": rows, "observed": [names(0)], "ns": 2, "nt": 10, "layout": None}
+
+    todo = [(7, 3, [], 0), (6, 2, [1], 1)] if tier == "quick" else [(7, 3, [], 0), (6, 2, [1], 1), (9, 4, [], 2), (12, 5, [0, 3], 0), (8, 8, [], 1), (5, 2, [], 2), (10, 3, [2], 0), (16, 7, [], 1)]
+    for n_pl, n_chunks, picks, style in todo:
+        names = [lambda i: "plate_%d" % i, lambda i: "P%02d-%s" % (i, "abcdefgh"[i % 8] * (1 + i % 3)), lambda i: str(1000 - 7 * i)][style]
+        yield {"screen": sc_(n_pl, names), "n_chunks": n_chunks, "batch_picks": picks, "batch_repeat": False, "scores": [float((5 * i) % 7) for i in range(n_pl)], "order_seed": n_pl, "policy_k": 0, "cli": True, "xproc": True}
 
 
 def _conditions(screen, sel):
@@ -211,7 +229,11 @@ def check_case(case):
                 argv = ["--data", sfile, "--thetas", tfile, "--distance-matrix", dfile, "--n-chunks", n_chunks, "--chunk-index", c, "--scorer", "SizeScorer", "--output", out, "--seed", 3]
                 if batch:
                     argv += ["--batch-plate-ids"] + list(batch)
-                run_cli("calculate_scores", argv, verbose=(case["order_seed"] + c) % 2 == 1)
+                if case.get("xproc"):
+                    ok_, text_ = xproc.cli("calculate_scores", argv, hashseed=101 + 17 * c + case["order_seed"])
+                    require(ok_, "cli.xproc_chunk_failed", lambda: "calculate_scores for chunk %d of %d in its own process failed: %s" % (c, n_chunks, text_[-600:]))
+                else:
+                    run_cli("calculate_scores", argv, verbose=(case["order_seed"] + c) % 2 == 1)
                 cfiles.append(out)
             reloaded = Screen_load(sfile)
             allh = ChunkedScoresHolder.concat([ChunkedScoresHolder.load_h5(f) for f in cfiles])
@@ -239,7 +261,7 @@ def check_case(case):
     finally:
         tmp.cleanup(*paths)
 
-    labels = ["policy" if case["policy_k"] else "no-policy", "cli" if case["cli"] else "api"]
+    labels = ["policy" if case["policy_k"] else "no-policy", "cli" if case["cli"] else "api"] + (["one-process-per-chunk"] if case.get("xproc") else [])
     if not unobs:
         labels.append("all-observed")
     if n_chunks > len(candidates):
@@ -249,7 +271,7 @@ def check_case(case):
         labels.append("ties-at-minimum")
     if batch:
         labels.append("batch")
-    return {"nontrivial": (n_chunks >= 2 and bool(batch)) or ties or n_chunks > len(candidates), "labels": labels}
+    return {"nontrivial": (n_chunks >= 2 and bool(batch)) or ties or n_chunks > len(candidates) or bool(case.get("xproc") and n_chunks >= 2), "labels": labels}
 
 
 def Screen_load(path):
